@@ -18,6 +18,11 @@ def run(ctx):
     led.explanation = EXPLANATION
     led.assumptions = ["post-parse model (C04)", "v4: m()/macroVector summaries checked by C02.m / C02.eq"]
     n = 0
+    from ..rules_parse import RelabelLedger
+
     for v in (2, 3, 4):
+        # the object model fixes one iteration order for the parsed metric map: the comparisons below
+        # speak for every field order only if nothing iterates that map (C05's rule, discharged here)
+        RF.check_order_iter(ctx, RelabelLedger(led, "C06.order", keep=("C05.order.iter",), strip="C05.order.iter"), v)
         n += RF.check_c06(ctx, led, v)
     led.require_min("C06", n, 90, "non-interference comparisons")
